@@ -87,6 +87,23 @@ def sites(l):
         if v > 0: outs.append(fmt(v - 1))
         return outs
     rep(r"(?<![\w\.\x00])(0x[0-9a-fA-F_]+|\d[\d_]*)(?![\w\.]|\x00)", lit, "LIT")
+    # string / byte-string literals that are data (map keys, compared values, request payloads), not messages:
+    # the last character is changed
+    for mt in re.finditer(r'(?:remove|get|contains_key|starts_with|ends_with|eq_ignore_ascii_case|insert|push_str|extend_from_slice|send)\(\s*&?(b?"((?:[^"\\]|\\.)+)")|(?:==|!=|=>)\s*(b?"((?:[^"\\]|\\.)+)")|^\s*(b?"((?:[^"\\]|\\.)+)")\s*(?:\||=>)', l):
+        for gi in (1, 3, 5):
+            if mt.group(gi):
+                lit, body = mt.group(gi), mt.group(gi + 1)
+                if body.endswith("\\") or len(body) < 1: continue
+                last = body[-1]
+                repl = "X" if last != "X" else "Y"
+                if len(body) >= 2 and body[-2] == "\\":   # escape sequence at the end: mutate the char before it
+                    continue
+                newlit = lit[:-2] + repl + '"'
+                st = mt.start(gi)
+                res.append(("STR", l[:st] + newlit + l[st + len(lit):]))
+    # range bounds
+    rep(r"(?<=[\w\)\]]) \.\. (?=[\w\(])", lambda mt: [" ..= "], "RANGE")
+    rep(r" \.\.= ", lambda mt: [" .. "], "RANGE")
     s = l.strip()
     # statement deletion: a bare call statement
     if re.match(r"^[a-z_][\w\.]*(\.|\()[^=]*;$", s) and not s.startswith(("return", "let ", "break", "continue")) and " = " not in mask(s):
